@@ -1274,7 +1274,11 @@ impl RepDefUnraveler {
         // This is the highest def level that is still visible.  Once we hit a list then
         // we stop looking because any null / empty list (or list masked by a higher level
         // null) will not be visible
-        let mut max_level = null_level.max(empty_level);
+        //
+        // A list layer without null / empty lists (AllValidList) has no levels of its own, but levels
+        // up to `valid_level` belong to inner layers (null item, null / empty inner list, null struct
+        // below this list) and are perfectly visible: they start a valid list at this layer.
+        let mut max_level = null_level.max(empty_level).max(valid_level);
         // Anything higher than this (but less than max_level) is a null struct masking our
         // list.  We will materialize this is a null list.
         let upper_null = max_level;
